@@ -5,6 +5,7 @@ import Driver.LpmSuite
 import Driver.TableSuite
 import Driver.SchedSuite
 import Driver.WSSuite
+import Driver.RecSuite
 /-!
   Model driver.  usage: driver <suite> < ops-file
   Reads lines; `case N` is echoed (and resets suite state), `op ...` produces
@@ -45,5 +46,6 @@ def main (args : List String) : IO UInt32 := do
   | ["table"] => loopState stdin stdout TableS.step (default : TableS.S); return 0
   | ["sched"] => loopState stdin stdout Sched.step (default : Sched.S); return 0
   | ["ws"] => loopState stdin stdout WSS.step (default : WSS.S); return 0
+  | ["rec"] => loopState stdin stdout RecS.step (default : RecS.S); return 0
   | ["pmap"] => loopState stdin stdout PMapS.step (default : PMapS.S); return 0
   | _ => IO.eprintln "usage: driver <suite>"; return 2
